@@ -38,3 +38,8 @@ chk("C14", "exploration",
     "server stamps lie inside the client's in-flight interval (can only under-state overlap); porcupine v1.3.0 with a 5 s limit (Unknown = inconclusive); deadlocks surface as INCONCLUSIVE; TTL/eviction not exercised; the shared-slice duplication is a listed known finding",
     "runtime monitoring: request-log invariants + porcupine linearizability check + Go race detector",
     "DESIGN.md §3 C14")
+chk("C19", "exploration",
+    "in-process relational monitor over the real parser: strict-valid generated documents (all scalar styles, flow maps, comments) parsed in both modes must give the same flattened rules, line ranges and positions; the same rule lists wrapped under 0-4 levels of mappings / sequence items with siblings, extra (also empty, comment-only, null) documents and a second sibling rule list must be found by relaxed mode displaced exactly by the wrapper's lines and columns.",
+    "the wrapper generator's own displacement bookkeeping; blank-line units are column-independent; documents with C06-risky features (escapes, blank lines inside folded scalars, indentation indicators) are left to C06",
+    "relational (metamorphic) monitor over in-process parser executions",
+    "DESIGN.md §3 C19")
